@@ -152,7 +152,10 @@ def run_batch(pid, tier, verif_seed, nruns, nworkers, max_wall):
             agg["build_rejected"] += 1
         if res["stub_parallel"]:
             agg["stub_parallel_runs"] += 1
-        agg["digests"][res["run_seed"]] = res["digest"]
+        if not res.get("real_timeout_guard"):
+            agg["digests"][res["run_seed"]] = res["digest"]
+        else:
+            agg["real_timeout_guard"] = agg.get("real_timeout_guard", 0) + 1
         if res.get("plan") is not None and not v["violations"] and len(agg["samples"]) < 3:
             agg["samples"].append({"plan": res["plan"], "outcome": {"key": v["key"], "probes": v["probes"]}})
         for viol in v["violations"]:
@@ -254,6 +257,7 @@ def run_batch(pid, tier, verif_seed, nruns, nworkers, max_wall):
             "inconclusive_unknown": agg["inconclusive"],
             "build_rejected": agg["build_rejected"],
             "stub_parallel_runs": agg["stub_parallel_runs"],
+            "real_timeout_guard_runs": agg.get("real_timeout_guard", 0),
             "determinism_rechecked": len(rejobs), "determinism_mismatches": len(mismatches),
             "known_findings_hit": {s: agg["viol"][s]["count"] for s in agg["viol"] if s in known},
             "other_property_notes": dict(sorted(agg["notes"].items(), key=lambda kv: -kv[1])[:20]),
